@@ -163,6 +163,37 @@ CLAIMED["C15"] = dict(
     technique="exhaustive enumeration of fault positions (every k per request class, bounded pairs) on the implementation with differential and sanitizer oracles",
     design_ref="3/C15", engine="harness/c15_faults.cpp")
 
+CLAIMED["C13"] = dict(
+    level="exploration",
+    text="Every form of the x86 ISA database x {32,64}-bit mode and every AArch64 form, instantiated with default operands + every single deviation (thorough: pairs / full slot "
+         "products) + near-miss mutations (size one class off, swapped operands, wrong count, decorations/prefixes the form does not list) + mode-excluded forms: each request is "
+         "observed through Assembler::emit without validation, with kValidateAssembler and through InstAPI::validate(), each on a fresh CodeHolder; validation must not change "
+         "success/bytes, what the validator admits the encoder must encode (position-independent errors), excluded-mode forms must be refused, every form/decoration listed in "
+         "ref/implemented_*.txt must still be accepted by all three; every instruction name <-> id round trip (all ids, all names, case/length/prefix mutations) on both backends.",
+    note="ref/implemented_{x86,a64}.txt is a recorded list of (mode, mnemonic, form, feature) lines the tree accepted through all three routes; it decides only clause (D) "
+         "'an implemented form stays accepted'. Known findings: the AArch64 validate() is an accept-everything stub; movabs/movdir64b/tile* address corner cases.",
+    technique="exhaustive enumeration of database forms x deviation-bounded operand instantiations on the implementation, differential between validator, validating and non-validating encoder, with the ISA database as oracle",
+    design_ref="3/C13", engine="harness/c13_names.cpp")
+
+CLAIMED["C20"] = dict(
+    level="exploration",
+    text="Every accepted case of the C01 (x86, both modes) and C02 (AArch64) sweeps - every db form, default + every single deviation - is formatted by format_instruction for "
+         "every FormatFlags set of the tier x register mode (physical, named/unnamed virtual, virtual of another type) x label mode (anonymous, named, local under named/anonymous "
+         "parent), by format_node of the Compiler's node, by format_operand and by the StringLogger (3 logger flag sets); the text is parsed back by a harness-owned grammar and "
+         "compared with the request clause by clause (mnemonic, prefix, register name/size, memory size/segment/base/index/scale/disp, broadcast, imm, mask, zeroing, rounding, "
+         "label, shift, extend, cond, addressing mode, operand count); the machine-code column must equal the appended bytes; thorough: the text is re-assembled by GNU as / llvm-mc.",
+    note="Trusts the harness grammar and register tables; texts the external assembler rejects are inconclusive in the re-assembly leg; at most 1 deviation per case.",
+    technique="exhaustive enumeration of database forms x single deviations x format flag sets on the implementation with a parse-back oracle and external assemblers as second oracle",
+    design_ref="3/C20", engine="harness/c20_format.cpp")
+
+PENDING = {
+    "C05": "model checking applies and the check exists (checks/c05.py, harness/c05_ra.cpp: exhaustive small Compiler programs executed/simulated before and after register "
+           "allocation); on the current tree it still reports genuine defects whose repairs are being prepared, so it is not claimed until it exits 0 with them fixed or listed",
+    "C08": "model checking applies and the check exists (checks/c08.py, harness/c08_builder.cpp: exhaustive emitter-call histories replayed through Assembler and Builder); "
+           "it still reports genuine Builder defects whose repairs are being prepared, so it is not claimed until it exits 0 with them fixed or listed",
+    "C14": "model checking applies and the check exists (checks/c14.py, harness/c14_invalid.cpp: exhaustive invalid-input alphabet x emitter states); it still reports genuine "
+           "defects whose repairs are being prepared, so it is not claimed until it exits 0 with them fixed or listed",
+}
 NOT_YET = "check not built yet in this round (planned, see DESIGN.md section 3); not claimed until it exists and passes"
 
 
@@ -182,7 +213,7 @@ def main():
             level_claimed=dict(category=c["level"], text=c["text"], design_ref="DESIGN.md " + c["design_ref"]),
             level_note=c["note"],
             technique=c["technique"]))
-    na = [dict(property_id=p, reason=NOT_YET) for p in ALL if p not in CLAIMED]
+    na = [dict(property_id=p, reason=PENDING.get(p, NOT_YET)) for p in ALL if p not in CLAIMED]
     m = dict(
         version=1,
         setup_cmd="python3 lib/vbuild.py asan fast",
